@@ -48,7 +48,7 @@ Fixpoint nocross_from (pend : Z) (ch : list tag) (evs : list event) (tr : list (
           match ch with
           | [] => nocross_from pend ch es rs
           | t :: ch' =>
-              nocross_from (if is_TB t && (0 <? pend) then pend - 1 else pend) ch' es rs
+              nocross_from (if is_TBa t && (0 <? pend) then pend - 1 else pend) ch' es rs
           end
       end
   | _, _ => true
@@ -58,8 +58,8 @@ Definition nocross (evs : list event) (tr : list (list obs)) : bool :=
   nocross_from 0 [] evs tr.
 
 (* The realtime side's pending controllers as the records imply them: an
-   offered controller enters at the back, every delivered midi-bind removes the
-   front.  (`pending_before` of tools/props/C20.py; the classifier compares it
+   offered controller enters at the back, every delivered midi-bind that
+   answers a midi-use-CC removes the front.  (`pending_before` of tools/props/C20.py; the classifier compares it
    with the controllers whose answer is outstanding.  The model driver prints
    it and whether it is what the model's ring holds.) *)
 Fixpoint pending_from (P : list Z) (ch : list tag) (evs : list event) (tr : list (list obs)) : list Z :=
@@ -73,7 +73,7 @@ Fixpoint pending_from (P : list Z) (ch : list tag) (evs : list event) (tr : list
       | EDelR =>
           match ch with
           | [] => pending_from P ch es rs
-          | t :: ch' => pending_from (if is_TB t then tl P else P) ch' es rs
+          | t :: ch' => pending_from (if is_TBa t then tl P else P) ch' es rs
           end
       end
   | _, _ => P
@@ -181,7 +181,8 @@ Definition part (t : atab) (v7 : list (Z * Z)) (a : Z) (c : bool) : Z :=
 Definition comp (t : atab) (v7 : list (Z * Z)) (a : Z) : Z :=
   (part t v7 a true * 128 + part t v7 a false)%Z.
 
-Inductive amsg := AWatch | AUnwatch | ABind (t : atab).
+(* ABind t ans: the table, and whether it is the answer to a midi-use-CC *)
+Inductive amsg := AWatch | AUnwatch | ABind (t : atab) (ans : bool).
 
 Record astate := {
   a_queue : list (Z * bool);
@@ -199,7 +200,7 @@ Definition astate0 : astate :=
      a_pend := []; a_watch := 0%Z |}.
 
 Definition obs_of_amsg (m : amsg) : obs :=
-  match m with AWatch => OW | AUnwatch => OR | ABind _ => OB end.
+  match m with AWatch => OW | AUnwatch => OR | ABind _ _ => OB end.
 
 Definition a_send (s : astate) (q : list (Z * bool)) (t : atab) (cn : list Z) (out : list amsg)
   : astate :=
@@ -208,7 +209,7 @@ Definition a_send (s : astate) (q : list (Z * bool)) (t : atab) (cn : list Z) (o
 
 Definition a_unmap_out (s : astate) (k : Z * bool) : atab * list amsg :=
   match at_ctl k (a_tab s) with
-  | Some _ => (at_remove k (a_tab s), [ABind (at_remove k (a_tab s))])
+  | Some _ => (at_remove k (a_tab s), [ABind (at_remove k (a_tab s)) false])
   | None => (a_tab s, [])
   end.
 
@@ -225,7 +226,7 @@ Definition astep (ports : list port) (s : astate) (e : event) : astate * list ob
       let '(t, out) := a_unmap_out s (a, c) in
       (a_send s (a_queue s) t (a_chN s) out, map obs_of_amsg out)
   | EClear =>
-      let out := map (fun _ => AUnwatch) (a_queue s) ++ [ABind []] in
+      let out := map (fun _ => AUnwatch) (a_queue s) ++ [ABind [] false] in
       (a_send s [] [] (a_chN s) out, map obs_of_amsg out)
   | ECC par val chan nrpn =>
       let id := cc_id par chan nrpn in
@@ -250,10 +251,10 @@ Definition astep (ports : list port) (s : astate) (e : event) : astate * list ob
       | [] => (s, [OE])
       | id :: rest =>
           match a_queue s with
-          | [] => (a_send s [] (a_tab s) rest [], [OA id None])
+          | [] => (a_send s [] (a_tab s) rest [ABind (a_tab s) true], [OA id None; OB])
           | k :: q =>
               let t := a_tab s ++ [(id, k)] in
-              (a_send s q t rest [ABind t], [OA id (Some k); OB])
+              (a_send s q t rest [ABind t true], [OA id (Some k); OB])
           end
       end
   | EDelR =>
@@ -269,13 +270,13 @@ Definition astep (ports : list port) (s : astate) (e : event) : astate * list ob
               ({| a_queue := a_queue s; a_tab := a_tab s; a_chN := a_chN s; a_chR := rest;
                   a_rtab := a_rtab s; a_v7 := a_v7 s; a_pend := a_pend s;
                   a_watch := if (a_watch s =? 0)%Z then 0%Z else (a_watch s - 1)%Z |}, [])
-          | ABind t =>
+          | ABind t ans =>
               ({| a_queue := a_queue s; a_tab := a_tab s; a_chN := a_chN s; a_chR := rest;
                   a_rtab := t;
                   a_v7 := map (fun e => (fst e, match at_find (fst e) (a_rtab s) with
                                                 | Some _ => v7_get (a_v7 s) (fst e)
                                                 | None => 0%Z end)) t;
-                  a_pend := tl (a_pend s); a_watch := a_watch s |}, [])
+                  a_pend := (if ans then tl (a_pend s) else a_pend s); a_watch := a_watch s |}, [])
           end
       end
   end.
